@@ -108,6 +108,36 @@ def run_model(ctx, gen_dir, cfgpath, label, module="QsMOGen", **kw):
         tlc.COMMON = old
 
 
+def whole_call_stage(ctx):
+    """Binds spec/Apalache/QsInd.tla (whole-call protocol, invariant proved inductive by Apalache for an unbounded period
+    counter) to the real qs.hpp: TLC explores QsInd up to a bounded counter (IndInv must hold in every reachable state)
+    and emits one call history per transition; those and long random call sequences run on the real domain one call at
+    a time (harness/qs_whole.cpp logs the private protocol state after every call); QsWholeTrace.tla accepts a call only
+    if it is the QsInd action with exactly the logged successor state and that state satisfies IndInv."""
+    binary, _ = build.build("qs_whole", ["qs_whole.cpp"], compiler="g++")
+    old = tlc.COMMON
+    tlc.COMMON = old + os.pathsep + os.path.join(core.VERIF, "spec", "Apalache")
+    try:
+        r = ctx.model("QS", "MCQsInd", "MCQsInd.cfg" if ctx.quick else "MCQsInd_t.cfg", workers=8, xmx="8g", timeout=3000)
+        hists = list(tlc.printed_tuples(r, "H", budget=6000 if ctx.quick else 60000))
+        for h in hists:
+            ctx.count_history(["qs_whole"] + h)
+        hp = os.path.join(ctx.work, "qs_whole.hist")
+        core.write_ndjson(hp, hists)
+        tp = os.path.join(ctx.work, "qs_whole.trace")
+        core.run_histories(binary, ["--agents", "3", "--nodes", "2"], hp, tp, len(hists))
+        nrand, ln = (40, 400) if ctx.quick else (400, 2000)
+        tr = os.path.join(ctx.work, "qs_whole_rnd.trace")
+        core.run_histories(binary, ["--agents", "3", "--nodes", "2", "--random", str(nrand), "--len", str(ln), "--seed", str(ctx.seed)], None, tr, nrand)
+        with open(tp, "a") as out:
+            out.write(open(tr).read())
+        ctx.cov["whole_call_histories"] = len(hists) + nrand
+        ctx.validate("QS", "QsWholeTrace", "QsWholeTrace.cfg", tp, "qs whole-call conformance with QsInd (tour + long random runs)",
+                     keyfn=lambda rj, lines: "C11/whole/%s" % rj["clause"])
+    finally:
+        tlc.COMMON = old
+
+
 def run(ctx):
     ctx.cov["rule"] = ("schedules: one per transition of the explored QsImpl state graph (agent id per step + API call "
                        "when a call starts), sampled evenly when the graph is larger than the replay budget, plus "
@@ -204,3 +234,9 @@ def run(ctx):
         ctx.validate("QS", "QsTrace", "QsTrace.cfg", tp2, "qs TLC schedules", keyfn=key)
     from props import witness
     witness.tsan_witness(ctx)
+    # whole-operation protocol with an UNBOUNDED period counter (spec/Apalache/QsInd.tla): 4 agents, 3 nodes
+    from props import inductive
+    inductive.discharge(ctx, "QsInd", "CInit4", [("Init", "IndInv", 0), ("IndInv", "IndInv", 1), ("IndInv", "Safety", 0), ("IndInv", "AssertsHold", 0)],
+                        ("IndInv", "NextBroken", "IndInv", 1),
+                        "QS domain at whole-call granularity: a callback fires only after every agent online at registration has quiesced or left; no assertion of qs.hpp reachable; 4 agents, 3 nodes, unbounded period counter")
+    whole_call_stage(ctx)
